@@ -68,7 +68,6 @@ Definition leaf_matches (k : leaf_kind) (s : mstate) (r : result) : Prop :=
   | LHalt kd => r = RHalt (s_ctr s) kd
   | LStuck _ => True
   | LFuel => True
-  | LBadJumpEarly => True
   end.
 
 Lemma R_set_stack : forall sg s st pc,
@@ -97,7 +96,7 @@ Definition sim_result (sg : sstate) (sr : sres) (s : mstate) (cr : step_result) 
   | SNext sg' => exists s', cr = Continue s' /\ R sg' s'
   | SLeaf k =>
       match k with
-      | LStuck _ | LFuel | LBadJumpEarly => True
+      | LStuck _ | LFuel => True
       | _ => exists r, cr = Done r /\ leaf_matches k s r
       end
   | SBranch c t rest =>
@@ -554,7 +553,7 @@ Definition outcome_matches (k : leaf_kind) (r : result) : Prop :=
                          (forall a, get_balance w a = eval rho (sbal se a))
   | LRevert ret => exists ctr, r = RRevert ctr (map (beval rho) ret)
   | LHalt kd => exists ctr, r = RHalt ctr kd
-  | LStuck _ | LFuel | LBadJumpEarly => True
+  | LStuck _ | LFuel => True
   end.
 
 Lemma leaf_outcome : forall k s r, leaf_matches k s r -> outcome_matches k r.
@@ -613,7 +612,11 @@ Proof.
     + destruct (visits_of (jumpid se sg) (ss_visits sg)) as [vt vf].
       set (d := jumpi_decide (oracle (ss_path sg) c true) (oracle (ss_path sg) c false) vt vf loop) in *.
       destruct (d_follow_true d && negb (is_jumpdest (se_code se) t)).
-      * destruct Hin as [<-|[]]. exists []. reflexivity.
+      * cbn [fst] in Hin. destruct Hin as [<-|Hin].
+        -- exists [(c, true)]. reflexivity.
+        -- destruct (d_symbolic d && d_follow_false d); [|destruct Hin].
+           apply IH in Hin. cbn [ss_path] in Hin. destruct Hin as [pre Hp].
+           exists (pre ++ [(c, false)]). rewrite Hp, <- app_assoc. reflexivity.
       * cbn [fst] in Hin. apply in_app_or in Hin. destruct Hin as [Hin|Hin].
         -- destruct (d_follow_true d); [|destruct Hin].
            apply IH in Hin. cbn [ss_path] in Hin. destruct Hin as [pre Hp].
@@ -652,7 +655,24 @@ Proof.
       set (d := jumpi_decide (oracle (ss_path sg) c true) (oracle (ss_path sg) c false) vt vf loop) in *.
       destruct Hsim as [Hfalse [Htrue Hbad]].
       destruct (d_follow_true d && negb (is_jumpdest (se_code se) t)) eqn:Eearly.
-      * destruct Hin as [<-|[]]. exists O. exact I.
+      * (* invalid destination *)
+        apply andb_true_iff in Eearly. destruct Eearly as [_ Einv]. apply negb_true_iff in Einv.
+        cbn [fst] in Hin. destruct Hin as [<-|Hin].
+        -- (* the inputs that take the jump halt *)
+           cbn [l_path l_kind] in *.
+           assert (Hc : eval rho c <> 0).
+           { inversion Hsat as [|x xs Hx _]. subst. unfold holds in Hx. cbn in Hx. apply Z.eqb_neq. exact Hx. }
+           exists 1%nat. rewrite exec_S, (step_irrel lim se rho _ rs0 sg s HR) by (rewrite Es; reflexivity).
+           rewrite (Hbad Hc Einv). cbn [outcome_matches]. eexists. reflexivity.
+        -- destruct (d_symbolic d && d_follow_false d); [|destruct Hin].
+           pose proof (sexec_path_extends _ _ _ Hin) as [pre Hp]. cbn [ss_path] in Hp.
+           assert (Hc : eval rho c = 0).
+           { rewrite Hp in Hsat. apply sat_app in Hsat. inversion Hsat as [|x xs Hx _]. subst.
+             unfold holds in Hx. cbn in Hx. apply Z.eqb_eq. exact Hx. }
+           destruct (Hfalse Hc) as [s' [Hs' HR']].
+           destruct (IH _ s' (HR' _ _) l Hin Hsat) as [n Hn].
+           exists (S n). rewrite exec_S, (step_irrel lim se rho _ rs0 sg s HR) by (rewrite Es; reflexivity).
+           rewrite Hs'. exact Hn.
       * cbn [fst] in Hin. apply in_app_or in Hin. destruct Hin as [Hin|Hin].
         -- destruct (d_follow_true d) eqn:Eft; [|destruct Hin].
            cbn [andb] in Eearly. apply negb_false_iff in Eearly.
@@ -696,7 +716,21 @@ Proof.
       set (ct := oracle (ss_path sg) c true). set (cf := oracle (ss_path sg) c false).
       set (d := jumpi_decide ct cf vt vf loop).
       destruct (d_follow_true d && negb (is_jumpdest (se_code se) t)) eqn:Eearly.
-      * right. eexists; split; [left; reflexivity | exact Hsat].
+      * cbn [fst snd]. apply andb_true_iff in Eearly. destruct Eearly as [Eft _].
+        destruct (Z.eq_dec (eval rho c) 0) as [Hc|Hc].
+        -- assert (Hcf : cf <> R_UNSAT).
+           { intro Hu. apply (Hor _ _ _ Hu Hsat). unfold holds. cbn. apply Z.eqb_eq. exact Hc. }
+           destruct (cover_false ct cf vt vf loop Hcf) as [Hf|Hl]; fold d in Hf || fold d in Hl.
+           ++ pose proof (both_followed_symbolic ct cf vt vf loop Eft Hf) as Hsym. fold d in Hsym.
+              rewrite Hf, Hsym. cbn [andb].
+              match goal with |- context [sexec lim se oracle loop f ?st] =>
+                match st with context [(c, false)] => destruct (IH st) as [Hlog|[l [Hin Hs]]] end end.
+              ** constructor; [unfold holds; cbn; apply Z.eqb_eq; exact Hc | exact Hsat].
+              ** left. rewrite Hlog. rewrite !orb_true_r. reflexivity.
+              ** right. exists l. split; [right; exact Hin | exact Hs].
+           ++ left. rewrite Hl. reflexivity.
+        -- right. eexists; split; [left; reflexivity|]. cbn [l_path].
+           constructor; [unfold holds; cbn; apply Z.eqb_neq; exact Hc | exact Hsat].
       * cbn [fst snd].
         destruct (Z.eq_dec (eval rho c) 0) as [Hc|Hc].
         -- (* the fall-through side is the one rho takes *)
